@@ -12,7 +12,7 @@ from .. import lib_fm_transpile as T
 CORE = ('lb', 'step', 'lvafter', 'idiv', 'mod', 'intfn', 'sign', 'ipow', 'conv', 'while', 'select')
 POOLS = ('core', 'boundmod', 'fndiv', 'intcast', 'exitcycle', 'section', 'selneg', 'idxdiv')
 QUICK = {'core': 24, '*': 4}
-THOROUGH = {'core': 900, '*': 60}
+THOROUGH = {'core': 240, '*': 20}
 
 ASSUMPTIONS = [
     'transpilable subset generated: stand-alone subroutine, integer / real(real64) / logical scalars with every intent, 1-d and 2-d explicit-shape '
